@@ -215,8 +215,17 @@ def o_cp_normalize_returns(case):
     dense = ref.cp_dense(w, fs)
     scale = _cp_scale(w, fs)
     obj = CP.CPTensor((np.ones(case["rank"]) if w is None else w.copy(), [f.copy() for f in fs]))
+    before = snap.freeze(obj)
     ret = obj.normalize() if case["inplace"] == "default" else obj.normalize(inplace=case["inplace"])
     check(ret is not None, "CPTensor.normalize/returns-cp-tensor", lambda: f"normalize(inplace={case['inplace']}) returned None")
+    if case["inplace"] is False:
+        # "if False, returns a normalized Copy": the object itself is left as it was
+        d = snap.diff(before, snap.freeze(obj))
+        check(d is None, "CPTensor.normalize/inplace-false-leaves-self", lambda: d)
+        check(ret is not obj, "CPTensor.normalize/inplace-false-returns-copy", "returned the object itself")
+    else:
+        # "otherwise the tensor modifies itself and returns itself"
+        check(ret is obj, "CPTensor.normalize/inplace-true-returns-self", lambda: f"returned a different object ({type(ret).__name__})")
     ow, ofs = _unpack_cp(ret, "CPTensor.normalize", len(fs), case["rank"])
     close(ref.cp_dense(ow, ofs), dense, "CPTensor.normalize/returned-dense", rel=REL, scale=scale)
     for o in ofs:
